@@ -68,14 +68,20 @@ def import_rules(chk, tier, pid, rules, why, floor, only=None):
 # theirs in their modules). (source property, rules, reason, counted instances on the pinned tree, instance filter)
 IMPORTS = {
     "C01": [("C06", {"initial-state", "object-builders"}, "the eager reader starts from the neutral state; build_object stops only at read_until / read_to", 5,
-             lambda i: "(eager)" in i["fn"] or i["fn"] == "build_object")],
+             lambda i: "(eager)" in i["fn"] or i["fn"] == "build_object"),
+            ("C10", {"declared-vs-default", "charset-switch"}, "text is written and read back with the same (declared or default) character set per VR", 30, None),
+            ("C34", {"no-bare-write"}, "every value byte is written (write_all), never a possibly short write", 1, None)],
     "C02": [("C06", {"initial-state", "object-builders"}, "the eager reader starts from the neutral state; build_object stops only at read_until / read_to", 5,
              lambda i: "(eager)" in i["fn"] or i["fn"] == "build_object"),
-            ("C01", {"value-reader-conditions", "value-separator", "vr-value-reader"}, "every value is read back as it was written before it is rewritten", 90, None)],
+            ("C01", {"value-reader-conditions", "value-separator", "vr-value-reader"}, "every value is read back as it was written before it is rewritten", 90, None),
+            ("C34", {"no-bare-write"}, "every value byte is written (write_all), never a possibly short write", 1, None)],
+    "C04": [("C34", {"no-bare-write"}, "the declared length is what is written only if the whole value is written (write_all)", 1, None)],
     "C06": [("C07", {"sanitize-length", "length-provenance"}, "both readers derive the value length from the header in the same way", 36, None)],
-    "C13": [("C11", {"extend-truncate", "value-truncate"}, "Truncate and Push* delegate to PrimitiveValue::truncate / extend_*", 30, None)],
+    "C13": [("C11", {"extend-truncate", "value-truncate"}, "Truncate and Push* delegate to PrimitiveValue::truncate / extend_*", 30, None),
+            ("C10", {"declared-vs-default", "charset-switch"}, "an object built by operations survives write and read-back: text VRs use the declared character set on both sides", 30, None)],
     "C09": [("C03", {"vr-header-form", "header-layout", "header-bytes-read"}, "the meta group is written and read with the Explicit VR Little Endian codec", 85,
-             lambda i: "explicit_le" in i["fn"])],
+             lambda i: "explicit_le" in i["fn"]),
+            ("C34", {"no-bare-write"}, "every byte of the meta group values is written (write_all)", 1, None)],
     "C25": [("C29", {"pdu-roles"}, "`a PDU longer than the maximum is rejected` is decided by the maximum the associations hand to read_pdu / encode_pdu", 20, None)],
     "C26": [("C25", {"pdu-tables", "item-framing", "chunk-length"}, "P-DATA PDUs and their PDV items are framed as the reader parses them", 117, None),
             ("C28", {"max-pdu"}, "the P-DATA writer of an acceptor is sized with the requestor's maximum as recorded at negotiation", 2, None),
@@ -86,7 +92,7 @@ IMPORTS = {
     "C30": [("C25", {"pdu-tables"}, "release / abort PDUs are coded as the peer decodes them", 91, None),
             ("C29", {"pdu-roles"}, "release and abort go out through send(), limited by the peer's maximum as negotiated", 20, None),
             ("C27", {"wire-loop"}, "release() judges the peer's answer by what receive() returns: receive hands on every PDU the wire reader yields", 5,
-             lambda i: str(i["instance"]).startswith(("(g)", "(h)", "(i)")))],
+             lambda i: str(i["instance"]).startswith(("(g)", "(h)", "(i)", "(j)")))],
     "C31": [("C04", {"padding-byte", "bytes-written", "even-round", "unit-width", "date-time-width"},
              "the group length counts the canonical encoded size of each element: what the encoder writes (value, separators, padding) must be that size", 120, None)],
     "C32": [("C27", {"wire-loop"}, "the SCP receives every PDU whatever the segmentation", 39, None),
@@ -104,6 +110,8 @@ def apply_imports(chk, tier, pid):
         import_rules(chk, tier, src, rules, why, (counted * 9) // 10, only=only)
     if pid in TWIN_USE:
         sync_async_twins(chk, facts.load("W"), "sync-async-twins", TWIN_USE[pid])
+    if pid in ("C25", "C26", "C28", "C29"):
+        pdu_limit_constants(chk, facts.load("W"), "pdu-limit-constants")
 
 
 _TWIN_IGN = re.compile(r"into_future|IntoFuture|Future|poll|Pin|get_mut|branch|from_residual|from_output|Ok$|Err$|Some$|timeout$|context$|map_err$|into$|from$|new_unchecked|Context|as_mut$|deref|^fail$|build$|^await$")
@@ -151,6 +159,26 @@ def sync_async_twins(chk, fx, rule, names):
         x, y = call_sig(ha[0]), call_sig(hb[0])
         chk.expect((dict(x - y), dict(y - x)) == (only_a, only_b), rule, nm, "same-calls", {"only sync": only_a, "only async": only_b, "because": why},
                    {"only sync": dict(x - y), "only async": dict(y - x)}, loc=C.fn_loc(ha[0]))
+
+
+def pdu_limit_constants(chk, fx, rule):
+    """the PDU size constants can be used the way the writers use them: MAXIMUM_PDU_SIZE (what a peer's `0 = unlimited` becomes, and the clamp of
+    every announced maximum) plus the 6-byte PDU header still fits a u32 (`max_pdu_length + PDU_HEADER_SIZE` in send / the P-DATA writers), the
+    minimum is not above the default, the default not above the large size, and that not above the maximum"""
+    chk.rule(rule, "CONST: MAXIMUM_PDU_SIZE + PDU_HEADER_SIZE <= u32::MAX (no overflow in `max + header`); MINIMUM_PDU_SIZE <= DEFAULT_MAX_PDU <= LARGE_PDU_SIZE <= MAXIMUM_PDU_SIZE; "
+                   "PDU_HEADER_SIZE == 6 and PDV_HEADER_SIZE == 6")
+
+    def val(name):
+        c = fx.const(f"dicom_ul::pdu::{name}")
+        m = re.fullmatch(r"(\d+)_?u(32|size|64)", str(c.get("val", "")))
+        if not m:
+            raise facts.MissingAnchor(f"constant dicom_ul::pdu::{name}")
+        return int(m.group(1))
+    v = {n: val(n) for n in ("MAXIMUM_PDU_SIZE", "PDU_HEADER_SIZE", "PDV_HEADER_SIZE", "MINIMUM_PDU_SIZE", "DEFAULT_MAX_PDU", "LARGE_PDU_SIZE")}
+    chk.expect(v["MAXIMUM_PDU_SIZE"] + v["PDU_HEADER_SIZE"] <= 0xFFFF_FFFF, rule, "dicom_ul::pdu", "max-plus-header-fits-u32", "<= 4294967295", v["MAXIMUM_PDU_SIZE"] + v["PDU_HEADER_SIZE"])
+    chk.expect(v["MINIMUM_PDU_SIZE"] <= v["DEFAULT_MAX_PDU"] <= v["LARGE_PDU_SIZE"] <= v["MAXIMUM_PDU_SIZE"], rule, "dicom_ul::pdu", "ordered", "MINIMUM <= DEFAULT <= LARGE <= MAXIMUM", v)
+    chk.expect(v["PDU_HEADER_SIZE"] == 6 and v["PDV_HEADER_SIZE"] == 6, rule, "dicom_ul::pdu", "header-sizes", {"PDU_HEADER_SIZE": 6, "PDV_HEADER_SIZE": 6},
+               {"PDU_HEADER_SIZE": v["PDU_HEADER_SIZE"], "PDV_HEADER_SIZE": v["PDV_HEADER_SIZE"]})
 
 
 def pdata_reader_error_kinds(chk, fx, rule):
